@@ -1,13 +1,247 @@
 /-
-  IQE.Spec.Window — declarative window-function semantics (per row: its partition, the rows
-  before it, its peer group, its frame).  Placeholder until the C26 work lands: every call is
-  reported as unsupported (an explicit error, never a wrong value).
+  IQE.Spec.Window — declarative window-function semantics (the oracle for C26; deliberately naive).
+
+  For every input row `i` and every call  f(args) OVER (PARTITION BY pk ORDER BY ok frame):
+    * its *partition*  = the input rows whose partition-key values equal those of row `i`
+                         (NULL = NULL, as in GROUP BY), in input order;
+    * its *ordered partition* = that partition, stably sorted under the ORDER BY comparator
+                         (key, ASC/DESC, NULLS FIRST/LAST) — rows that compare equal are *peers*; their
+                         relative order is not fixed by SQL (here: input order; `row_number`, ROWS frames,
+                         lag/lead … among peers are therefore a relation, see C26);
+    * its *frame*      = the rows of the ordered partition kept by the start bound and by the end bound
+                         (SQL:2011 7.11 GR 5: each bound *removes* rows; the frame may be empty);
+    * its value        = the function applied to (ordered partition, position, frame).
+  Default frame: RANGE UNBOUNDED PRECEDING .. CURRENT ROW when ORDER BY is present, else the whole partition.
+  Output: input columns ++ one column per call, rows in INPUT order.
 -/
 import IQE.Spec.Types
+import IQE.Spec.OrderAgg
 namespace IQE.Spec
 open IQE
 
-def evalWindow (_cx : EvalCtx) (_env : Env) (_calls : List WinCall) (_rows : Table) : Except Err Table :=
-  .error (.unsupported "window functions: reference semantics not yet written")
+namespace Win
+
+/-! ### rows, partitions, order -/
+
+/-- what the definition needs to know about one input row -/
+structure Info where
+  idx : Nat            -- position in the input
+  pk : List Val        -- PARTITION BY values
+  ok : List Val        -- ORDER BY values
+  args : List Val      -- argument values
+deriving Repr, Inhabited
+
+def flagsOf (order : List SortKey) : List (Bool × Bool) := order.map fun k => (k.desc, k.nullsFirst)
+
+/-- `a` sorts before or with `b` -/
+def leInfo (fo : FloatOps) (flags : List (Bool × Bool)) (a b : Info) : Bool := cmpKeys fo flags a.ok b.ok != .gt
+
+/-- the partition of the rows with partition-key values `pk`, in input order -/
+def partitionOf (infos : List Info) (pk : List Val) : List Info := infos.filter (fun x => x.pk = pk)
+
+/-- the partition in window order (stable: peers keep input order) -/
+def orderedPartition (fo : FloatOps) (flags : List (Bool × Bool)) (infos : List Info) (pk : List Val) : List Info :=
+  (partitionOf infos pk).mergeSort (leInfo fo flags)
+
+/-! ### frames -/
+
+def defaultFrame (order : List SortKey) : Frame :=
+  if order.isEmpty then { units := .rows, start := .unboundedPreceding, stop := .unboundedFollowing }
+  else { units := .range, start := .unboundedPreceding, stop := .currentRow }
+
+/-- the numeric key of a RANGE frame with an offset -/
+inductive RKey | null | int (i : Int) | f64 (x : F64)
+deriving Repr, Inhabited
+
+def rangeKey : Val → Except Err RKey
+  | .null => .ok .null
+  | .int i => .ok (.int i)
+  | .date d => .ok (.int d)
+  | .f64 x => .ok (.f64 x)
+  | _ => .error (.unsupported "RANGE frames with offsets need a numeric or date ORDER BY key")
+
+/-- `cur + delta` on float keys, computed as `cur - k` / `cur + k` with `k ≥ 0` -/
+def shiftF (fo : FloatOps) (cur : F64) (delta : Int) : F64 :=
+  if delta < 0 then fo.sub cur (fo.ofInt (-delta)) else fo.add cur (fo.ofInt delta)
+
+/-- `key ≥ cur + delta` (exact on integers and dates, IEEE on floats) -/
+def geShift (fo : FloatOps) (key cur : RKey) (delta : Int) : Bool :=
+  match key, cur with
+  | .int a, .int c => decide (a ≥ c + delta)
+  | .f64 a, .f64 c => F64.ge a (shiftF fo c delta)
+  | _, _ => false
+
+def leShift (fo : FloatOps) (key cur : RKey) (delta : Int) : Bool :=
+  match key, cur with
+  | .int a, .int c => decide (a ≤ c + delta)
+  | .f64 a, .f64 c => F64.le a (shiftF fo c delta)
+  | _, _ => false
+
+/-- the single sort key of a RANGE frame with an offset: (desc, nullsFirst) -/
+def rangeOrder (order : List SortKey) : Except Err (Bool × Bool) :=
+  match order with
+  | [k] => .ok (k.desc, k.nullsFirst)
+  | _ => .error (.unsupported "RANGE frames with offsets require exactly one ORDER BY key")
+
+/-- signed offset of a bound in the direction of ascending key values:
+    `k PRECEDING` is `-k` for ASC and `+k` for DESC, `k FOLLOWING` the opposite -/
+def signedOffset (preceding desc : Bool) (k : Nat) : Int := if preceding != desc then -(k : Int) else (k : Int)
+
+/-- RANGE bound with offset: is row `x` kept by the START bound of the frame of `cur`?
+    SQL:2011 7.11 GR 5.b.ii: a NULL current key frames from its peers on; otherwise NULL keys are removed
+    iff they sort first, and the rows before `cur ∓ k` (in sort direction) are removed. -/
+def rangeStartKeeps (fo : FloatOps) (flags : List (Bool × Bool)) (order : List SortKey) (preceding : Bool) (k : Nat)
+    (cur x : Info) : Except Err Bool := do
+  let (desc, nf) ← rangeOrder order
+  let kc ← rangeKey (cur.ok.headD .null)
+  let kx ← rangeKey (x.ok.headD .null)
+  match kc, kx with
+  | .null, _ => pure (cmpKeys fo flags x.ok cur.ok != .lt)
+  | _, .null => pure (!nf)
+  | kc, kx =>
+    let d := signedOffset preceding desc k
+    pure (if desc then leShift fo kx kc d else geShift fo kx kc d)
+
+/-- … by the END bound -/
+def rangeEndKeeps (fo : FloatOps) (flags : List (Bool × Bool)) (order : List SortKey) (preceding : Bool) (k : Nat)
+    (cur x : Info) : Except Err Bool := do
+  let (desc, nf) ← rangeOrder order
+  let kc ← rangeKey (cur.ok.headD .null)
+  let kx ← rangeKey (x.ok.headD .null)
+  match kc, kx with
+  | .null, _ => pure (cmpKeys fo flags x.ok cur.ok != .gt)
+  | _, .null => pure nf
+  | kc, kx =>
+    let d := signedOffset preceding desc k
+    pure (if desc then geShift fo kx kc d else leShift fo kx kc d)
+
+/-- is the row `x` at position `q` of the ordered partition kept by the frame's START bound, for the current row
+    `cur` at position `p`? -/
+def startKeeps (fo : FloatOps) (flags : List (Bool × Bool)) (order : List SortKey) (units : FrameUnits) (b : FrameBound)
+    (p : Nat) (cur : Info) (q : Nat) (x : Info) : Except Err Bool :=
+  match units, b with
+  | _, .unboundedPreceding => .ok true
+  | _, .unboundedFollowing => .error (.bad "frame cannot start at UNBOUNDED FOLLOWING")
+  | .rows, .preceding k => .ok (decide (p ≤ q + k))
+  | .rows, .currentRow => .ok (decide (p ≤ q))
+  | .rows, .following k => .ok (decide (p + k ≤ q))
+  | .range, .currentRow => .ok (cmpKeys fo flags x.ok cur.ok != .lt)       -- peers and later rows
+  | .range, .preceding k => rangeStartKeeps fo flags order true k cur x
+  | .range, .following k => rangeStartKeeps fo flags order false k cur x
+
+def endKeeps (fo : FloatOps) (flags : List (Bool × Bool)) (order : List SortKey) (units : FrameUnits) (b : FrameBound)
+    (p : Nat) (cur : Info) (q : Nat) (x : Info) : Except Err Bool :=
+  match units, b with
+  | _, .unboundedFollowing => .ok true
+  | _, .unboundedPreceding => .error (.bad "frame cannot end at UNBOUNDED PRECEDING")
+  | .rows, .preceding k => .ok (decide (q + k ≤ p))
+  | .rows, .currentRow => .ok (decide (q ≤ p))
+  | .rows, .following k => .ok (decide (q ≤ p + k))
+  | .range, .currentRow => .ok (cmpKeys fo flags x.ok cur.ok != .gt)       -- peers and earlier rows
+  | .range, .preceding k => rangeEndKeeps fo flags order true k cur x
+  | .range, .following k => rangeEndKeeps fo flags order false k cur x
+
+/-- the frame of the row at position `p` of the ordered partition `ord`: the rows kept by both bounds, in window order -/
+def frameOf (fo : FloatOps) (flags : List (Bool × Bool)) (order : List SortKey) (fr : Frame) (ord : List Info) (p : Nat)
+    (cur : Info) : Except Err (List Info) :=
+  ord.zipIdx.filterMapM fun (x, q) => do
+    let s ← startKeeps fo flags order fr.units fr.start p cur q x
+    let e ← endKeeps fo flags order fr.units fr.stop p cur q x
+    pure (if s && e then some x else none)
+
+/-! ### the functions -/
+
+def litInt (what : String) : Option Expr → Except Err Int
+  | some (.lit (.int k)) => .ok k
+  | some (.lit _) => .error (.bad s!"{what} must be an integer literal")
+  | some _ => .error (.unsupported s!"non-literal {what}")
+  | none => .error (.bad s!"{what} missing")
+
+def arityOk (fn : WinFn) (n : Nat) : Bool :=
+  match fn with
+  | .rowNumber | .rank | .denseRank | .percentRank | .cumeDist => n == 0
+  | .ntile => n == 1
+  | .lag | .lead => 1 ≤ n && n ≤ 3
+  | .firstValue | .lastValue => n == 1
+  | .nthValue => n == 2
+  | .agg .countStar => n == 0
+  | .agg _ => n == 1
+
+/-- key vectors that are pairwise different under the comparator (first occurrences) -/
+def distinctKeys (fo : FloatOps) (flags : List (Bool × Bool)) : List (List Val) → List (List Val)
+  | [] => []
+  | k :: ks => k :: (distinctKeys fo flags ks).filter (fun k' => cmpKeys fo flags k' k != .eq)
+
+/-- NTILE(b) over `n` rows: bucket numbers by position — `n % b` buckets of size `n / b + 1`, then buckets of size `n / b` -/
+def ntileBuckets (n b : Nat) : List Nat :=
+  (List.range (min b n)).flatMap fun t => List.replicate (n / b + (if t < n % b then 1 else 0)) (t + 1)
+
+def arg0 (x : Info) : Val := x.args.headD .null
+
+/-- the value of call `c` for the row `cur` at position `p` of its ordered partition `ord` -/
+def valueAt (fo : FloatOps) (c : WinCall) (ord : List Info) (p : Nat) (cur : Info) : Except Err Val := do
+  let flags := flagsOf c.order
+  let n := ord.length
+  let before := ord.filter (fun x => cmpKeys fo flags x.ok cur.ok == .lt)
+  let frame := fun (_ : Unit) => frameOf fo flags c.order (c.frame.getD (defaultFrame c.order)) ord p cur
+  match c.fn with
+  | .rowNumber => pure (.int (p + 1))
+  | .rank => pure (.int (before.length + 1))
+  | .denseRank => pure (.int ((distinctKeys fo flags (before.map (·.ok))).length + 1))
+  | .percentRank =>
+    pure (.f64 (if n ≤ 1 then fo.ofInt 0 else fo.div (fo.ofInt before.length) (fo.ofInt (n - 1 : Nat))))
+  | .cumeDist =>
+    let upTo := ord.filter (fun x => cmpKeys fo flags x.ok cur.ok != .gt)
+    pure (.f64 (fo.div (fo.ofInt upTo.length) (fo.ofInt n)))
+  | .ntile => do
+    let b ← litInt "NTILE bucket count" c.args[0]?
+    if b ≤ 0 then throw (.bad "NTILE bucket count must be positive")
+    pure (.int ((ntileBuckets n b.toNat).getD p 0))
+  | .lag | .lead => do
+    let off ← if c.args.length ≥ 2 then litInt "LAG/LEAD offset" c.args[1]? else pure 1
+    if off < 0 then throw (.bad "LAG/LEAD offset must be non-negative")
+    let off := off.toNat
+    let src : Option Info := if c.fn == .lead then ord[p + off]? else (if off ≤ p then ord[p - off]? else none)
+    match src with
+    | some x => pure (arg0 x)
+    | none => pure (cur.args.getD 2 .null)          -- the default (third argument) of the CURRENT row, NULL if absent
+  | .firstValue => do
+    let f ← frame ()
+    pure (match f.head? with | some x => arg0 x | none => .null)
+  | .lastValue => do
+    let f ← frame ()
+    pure (match f.getLast? with | some x => arg0 x | none => .null)
+  | .nthValue => do
+    let k ← litInt "NTH_VALUE position" c.args[1]?
+    if k ≤ 0 then throw (.bad "NTH_VALUE position must be positive")
+    let f ← frame ()
+    pure (match f[k.toNat - 1]? with | some x => arg0 x | none => .null)
+  | .agg fn => do
+    let f ← frame ()
+    aggVal fo fn false f.length (f.map arg0)
+
+/-- one output column (in input order) for one call -/
+def evalCall (cx : EvalCtx) (env : Env) (c : WinCall) (rows : Table) : Except Err (List Val) := do
+  if !arityOk c.fn c.args.length then throw (.bad "wrong number of arguments for window function")
+  let infos ← rows.zipIdx.mapM fun (r, i) => do
+    let pk ← evalList cx (r :: env) c.partition
+    let ok ← evalList cx (r :: env) (c.order.map (·.e))
+    let args ← evalList cx (r :: env) c.args
+    pure ({ idx := i, pk := pk, ok := ok, args := args } : Info)
+  let flags := flagsOf c.order
+  infos.mapM fun cur => do
+    let ord := orderedPartition cx.fo flags infos cur.pk
+    let p := ord.findIdx (fun x => x.idx == cur.idx)
+    valueAt cx.fo c ord p cur
+
+/-- append the columns `cols` (each of the length of `rows`) to the rows -/
+def appendCols (rows : Table) (cols : List (List Val)) : Table :=
+  rows.zipIdx.map fun (r, i) => r ++ cols.map (fun col => col.getD i .null)
+
+end Win
+
+def evalWindow (cx : EvalCtx) (env : Env) (calls : List WinCall) (rows : Table) : Except Err Table := do
+  let cols ← calls.mapM fun c => Win.evalCall cx env c rows
+  pure (Win.appendCols rows cols)
 
 end IQE.Spec
